@@ -93,7 +93,7 @@ def all_harnesses():
                 for gone in (False, True):
                     hs.append(Harness(f"c09_{nm.lower()}_f{fi}_{'gone' if gone else 'alive'}", f"crate::c09::sinks({kind}, {cap}, {rl(fd)}, {str(gone).lower()})",
                                       unwind=12, unit=f"{nm}::work verdict", shape={"block": nm, "cap": cap, "feeds": fd, "upstream_gone": gone},
-                                      core=(fi in (0, 2)), timeout=900))
+                                      core=(fi == 0 or (fi == 1 and kind == 0)), timeout=900))
     return hs
 
 
